@@ -125,3 +125,23 @@ Lemma w5_values :
   (portfolio_value (ca_acc (pf_calc w5_cfg)) (ca_com (pf_calc w5_cfg)) (w5_pre ++ w5_d :: w5_post) CHF (d_date w5_d) == 1500 # 1)%Q /\
   (portfolio_value_by_account (ca_acc (pf_calc w5_cfg)) (ca_com (pf_calc w5_cfg)) w5_accs (w5_pre ++ w5_d :: w5_post) AAPL (d_date w5_d) == 500 # 1)%Q.
 Proof. destruct w5_days_split as [<- [-> _]]. vm_compute. split; reflexivity. Qed.
+
+(* ---------------------------------------------------------------- external_flows_zero_line on W5 *)
+
+(* the records before February end with the processed period end 2023-01-31; 02-10 is inside the
+   window and no period end; 02-28 is a period end *)
+Lemma w5_boundary : boundary w5_part (end_dates w5_part) (firstn 3 w5_perfs).
+Proof.
+  right. exists (firstn 2 w5_perfs), (nth 2 w5_perfs (mkPerf 0 [] [] flows_zero)).
+  split; [vm_compute; reflexivity|]. split; vm_compute; reflexivity.
+Qed.
+
+Lemma w5_stretch :
+  Forall (fun x => partition_contains w5_part (pf_date x) = true /\ mem (end_dates w5_part) (pf_date x) = false) w5_l /\
+  partition_contains w5_part (pf_date w5_p) = true /\ mem (end_dates w5_part) (pf_date w5_p) = true.
+Proof.
+  split.
+  - assert (E : w5_l = [nth 3 w5_perfs (mkPerf 0 [] [] flows_zero)]) by (vm_compute; reflexivity).
+    rewrite E. constructor; [|constructor]. split; vm_compute; reflexivity.
+  - split; vm_compute; reflexivity.
+Qed.
